@@ -150,15 +150,6 @@ Theorem c14_antispam_check_eq_eval :
 Proof. exact check_as_eq_eval_as. Qed.
 Print Assumptions c14_antispam_check_eq_eval.
 
-Theorem c14_antispam_check_eq_eval_bytewise_lower :
-  forall lower re_match any re_ok,
-    (forall x, length (lower x) = length x) ->
-    (forall k x, lower (firstn k x) = firstn k (lower x)) ->
-    (forall k x, lower (skipn k x) = skipn k (lower x)) ->
-    forall n d, wfb re_ok n = true -> check_as lower re_match any n d = eval_as lower re_match any n d.
-Proof. exact check_as_eq_eval_as_global. Qed.
-Print Assumptions c14_antispam_check_eq_eval_bytewise_lower.
-
 (* a rule built of field operations over the three documented paths decides an antispam datum exactly
    as it decides the event  {"event": ..., "source_name": ..., "meta": {...}} : one semantics, two callers *)
 Theorem c14_antispam_is_check_on_tree :
